@@ -91,6 +91,15 @@ static int line_to_instr(struct instr *instr_data, char *filtered_asm_str) {
   instr_data->key = str_to_instr_key(instr_data->instruction, opd_format);
   FAIL_IF_VAR(instr_data->key == INSTR_ERROR,
               "unsupported or illegal instruction: %s\n", asm_str);
+  // operand format n stands for "no operand" as well as "one immediate": the
+  // table row tells which of the two the instruction takes
+  if (opd_format == n) {
+    operand_encoding en = INSTR_TABLE[instr_data->key].encode_operand;
+    bool takes_imm =
+        en == D || en == S || en == I || NAME(instr_data->key, xbegin);
+    FAIL_IF_VAR(takes_imm != instr_data->imm,
+                "illegal operand format for instruction: %s\n", asm_str);
+  }
   // jrcxz only has a rel8 form: a displacement outside -128..127 cannot be
   // encoded
   if (instr_data->imm && NAME(instr_data->key, jrcxz) &&
